@@ -437,6 +437,7 @@ class WeatherCheck:
                     self.query(g, q)
             if 'rot' in case:
                 self.rotation(case['rot'])
+            self.missing_day()
         finally:
             if self.w is not None and getattr(self.w, '_main_ds', None) is not None:
                 try:
@@ -597,6 +598,34 @@ class WeatherCheck:
                  f'point outside the weather domain ({side} by {m!r}: lat={la!r}, lon={lo!r}, p={p!r} hPa; domain '
                  f"lat [{lat.min()}, {lat.max()}], lon [{lon.min()}, {lon.max()}], p [{r['pmin']}, {r['pmax']}]) "
                  f'returned {got!r} instead of being refused')
+
+    def missing_day(self):
+        """There is no wind data for a day without a file: a query for such a time must be refused - also when it is
+        repeated (the Weather object has a file of another day open by then) - and never answered from another day."""
+        import pandas as pd
+
+        ctx, case = self.ctx, self.case
+        U, V, pl, lat, lon, gc = self.days[0]
+        la = float(lat.min()) + 0.5 * float(lat.max() - lat.min())
+        lo = float(lon.min()) + 0.5 * float(lon.max() - lon.min())
+        pmin, pmax = float(pl.min()), float(pl.max())
+        alt = isa_altitude((pmin + 0.5 * (pmax - pmin)) * 100.0)
+        ok_first = self.call(self.ts(0, 6, 0), la, lo, 45.0, alt, 200.0, None)
+        if ok_first[0] != 'ok':
+            return  # judged by the in-domain clauses
+        t = pd.Timestamp(self.dates[0]).tz_localize('UTC') + pd.Timedelta(days=5, hours=6)
+        ctx.label('clause.missing_day')
+        for attempt in (1, 2):
+            st_, got = self.call(t, la, lo, 45.0, alt, 200.0, None)
+            ctx.extra['queries'] = ctx.extra.get('queries', 0) + 1
+            if st_ == 'ok':
+                _fail(ctx, 'missing_day.accepted', 'returned', WHERE, f'attempt_{attempt}',
+                      f'a query for {t} (no weather file for that day) returned {got!r} on attempt {attempt} instead of being refused')
+                return
+        again = self.call(self.ts(0, 6, 0), la, lo, 45.0, alt, 200.0, None)
+        if again[0] != 'ok' or abs(again[1] - ok_first[1]) > 1e-9 * (abs(ok_first[1]) + 1.0):
+            _fail(ctx, 'missing_day.state', 'mismatch', WHERE, 'after_refusal',
+                  f'after two refused queries for a day without data the original query gives {again!r}, before {ok_first!r}')
 
     def rotation(self, rot):
         """Heading and (uniform) wind rotated together leave the ground speed unchanged."""
